@@ -48,11 +48,17 @@ Record obs := {
   o_iloc1 : option (table row);        (* a.iloc[k1] *)
   o_getitem : option (list row);       (* a[q] *)
   o_filter : option (table row);       (* a.filter_with_ids(q) *)
-  o_i2i : option (list nat)            (* a.ids2indices(q) *)
+  o_i2i : option (list nat);           (* a.ids2indices(q) *)
+  o_cq : list Z;                       (* ids asked of the collection {x, other members} *)
+  o_cfilter : option (list (table row));   (* FEMAttributes.filter_with_ids(cq): ids, data per member *)
+  o_cextract : option (list (list row))    (* FEMAttributes.extract_dict(cq) *)
 }.
 
 (* codes of the read paths that differ *)
-Definition compare (c : cfg) (a : attr row) (o : obs) : list nat :=
+Definition tables_eqb := list_eqb' table_eqb.
+Definition rowss_eqb := list_eqb' rows_eqb.
+
+Definition compare (c : cfg) (others : list (attr row)) (a : attr row) (o : obs) : list nat :=
   (if zs_eqb (ids_view a) (o_ids o) then [] else [1%nat]) ++
   (if opt_eqb rows_eqb (data_view a) (o_data o) then [] else [2%nat]) ++
   (if table_eqb (frame_view a) (o_frame o) then [] else [3%nat]) ++
@@ -61,15 +67,16 @@ Definition compare (c : cfg) (a : attr row) (o : obs) : list nat :=
   (if opt_eqb table_eqb (slice c a (ByPos (o_ks o))) (o_iloc o) then [] else [6%nat]) ++
   (if opt_eqb table_eqb (slice c a (ByPos1 (o_k1 o))) (o_iloc1 o) then [] else [7%nat]) ++
   (if opt_eqb rows_eqb (getitem c a (o_q o)) (o_getitem o) then [] else [8%nat]) ++
-  (* filter_with_ids on a time series is outside the model (femio builds an object array
-     from the TimeSeriesDataFrame or raises, depending on the number of ids) *)
-  (if ts a || opt_eqb table_eqb (filter_with_ids a (o_q o)) (o_filter o) then [] else [9%nat]) ++
-  (if opt_eqb nats_eqb (ids2indices a (o_q o)) (o_i2i o) then [] else [10%nat]).
+  (if opt_eqb table_eqb (filter_with_ids a (o_q o)) (o_filter o) then [] else [9%nat]) ++
+  (if opt_eqb nats_eqb (ids2indices a (o_q o)) (o_i2i o) then [] else [10%nat]) ++
+  (if opt_eqb tables_eqb (cfilter (a :: others) (o_cq o)) (o_cfilter o) then [] else [11%nat]) ++
+  (if opt_eqb rowss_eqb (cextract c (a :: others) (o_cq o)) (o_cextract o) then [] else [12%nat]).
 
 (* run the history; failure code = 100 * step index + path code; path code 0 =
    raise/no-raise differs, 99 = the operation is outside the model's domain
    (a harness error) *)
-Fixpoint check_steps (c : cfg) (a : attr row) (n : nat) (steps : list (op row * obs)) : list nat :=
+Fixpoint check_steps (c : cfg) (others : list (attr row)) (a : attr row) (n : nat)
+         (steps : list (op row * obs)) : list nat :=
   match steps with
   | [] => []
   | (o, ob) :: r =>
@@ -79,15 +86,19 @@ Fixpoint check_steps (c : cfg) (a : attr row) (n : nat) (steps : list (op row * 
         let a' := match res with Some x => x | None => a end in
         let raised := match res with Some _ => false | None => true end in
         (if Bool.eqb raised (o_raised ob) then [] else [(100 * n)%nat]) ++
-        map (fun k => (100 * n + k)%nat) (compare c a' ob) ++
-        check_steps c a' (S n) r
+        map (fun k => (100 * n + k)%nat) (compare c others a' ob) ++
+        check_steps c others a' (S n) r
   end.
 
-Definition check_case (c : cfg) (l : list Z) (rows : list row) (gen tsf : bool) (ob0 : obs)
+(* others: the other members of the collection (never updated), given as
+   constructor arguments (ids, rows, time_series) *)
+Definition check_case (c : cfg) (l : list Z) (rows : list row) (gen tsf : bool)
+           (others : list (list Z * list row * bool)) (ob0 : obs)
            (steps : list (op row * obs)) : list nat :=
-  match mk_attr l rows gen tsf with
-  | None => [98%nat]
-  | Some a => map (fun k => k) (compare c a ob0) ++ check_steps c a 1 steps
+  match mk_attr l rows gen tsf,
+        mapM (fun o => mk_attr (fst (fst o)) (snd (fst o)) false (snd o)) others with
+  | Some a, Some os => map (fun k => k) (compare c os a ob0) ++ check_steps c os a 1 steps
+  | _, _ => [98%nat]
   end.
 
 (* ---- element collections ---- *)
